@@ -285,6 +285,41 @@ def r07_7(chk, P):
     return n
 
 
+def r07_8(chk, P):
+    chk.rule('R07.8', 'the window history is recorded before it is used: in vorbis_synthesis_blockin the stores v->lW=v->W and '
+             'v->W=vb->W of this call dominate every other read of v->W / v->lW in the function -- in particular the granule '
+             'position arithmetic (blocksizes[v->lW]/4+blocksizes[v->W]/4), which also runs for track-only blocks (vb->pcm==NULL) '
+             'during sample-accurate seeks')
+    F = P.need('vorbis_synthesis_blockin')
+
+    def is_m(e, rec, fld):
+        nd = F.ex[F.strip_casts(e)]
+        return nd['k'] == 'member' and nd.get('record') == rec and nd.get('field') == fld
+    st = {}
+    skip = set()
+    for e in F.pos:
+        nd = F.ex[e]
+        if nd['k'] == 'assign' and nd['op'] == '=':
+            if is_m(nd['c'][0], 'vorbis_dsp_state', 'W') and is_m(nd['c'][1], 'vorbis_block', 'W'):
+                st['W'] = e
+            if is_m(nd['c'][0], 'vorbis_dsp_state', 'lW') and is_m(nd['c'][1], 'vorbis_dsp_state', 'W'):
+                st['lW'] = e
+                skip.add(F.strip_casts(nd['c'][1]))
+            if nd['k'] == 'assign':
+                skip.add(F.strip_casts(nd['c'][0])) if (is_m(nd['c'][0], 'vorbis_dsp_state', 'W') or is_m(nd['c'][0], 'vorbis_dsp_state', 'lW')) else None
+    chk.require('W' in st and 'lW' in st, 'vorbis_synthesis_blockin: stores v->W=vb->W / v->lW=v->W not found')
+    n = 0
+    for fld in ('lW', 'W'):
+        reads = [e for e in F.pos if is_m(e, 'vorbis_dsp_state', fld) and F.ex[e]['k'] == 'member' and e not in skip]
+        bad = [e for e in reads if not cfg.pos_dominates(F, st[fld], e)]
+        chk.ob('R07.8', F.name, f'reads-of-{fld}-see-this-block', not bad, F.where(bad[0]) if bad else F.where(st[fld]),
+               f'{len(reads)} reads of v->{fld}, all dominated by the store on line {F.loc(st[fld])}' if not bad else
+               f'v->{fld} is read on line {F.loc(bad[0])} on a path that has not recorded this block\'s window (store on line '
+               f'{F.loc(st[fld])} does not dominate it): the sample count of a track-only block uses the previous block\'s size')
+        n += 1
+    return n
+
+
 def run(chk, P):
     E = getattr(P, '_effects', None) or k3.Effects(P)
     P._effects = E
@@ -298,6 +333,8 @@ def run(chk, P):
     chk.floor('R07.6', 3)
     r07_7(chk, P)
     chk.floor('R07.7', 1)
+    r07_8(chk, P)
+    chk.floor('R07.8', 2)
     import frames
     frames.c07(chk, P)
     chk.trusted += ['clang 14 front end', 'K3 effect table', 'interval abstraction of return values']
